@@ -66,8 +66,8 @@ func runC10(w *World) {
 			nf := r.Intn(5)
 			hangs := 0
 			for j := 0; j < nf; j++ {
-				st := []string{"500", "503", "-1", "-2"}[r.Intn(4)]
-				if st == "-2" {
+				st := []string{"500", "503", "-1", "-2", "-3"}[r.Intn(5)]
+				if st == "-2" || st == "-3" {
 					hangs++
 					if hangs > 2 {
 						st = "503"
@@ -94,9 +94,9 @@ func runC10(w *World) {
 				h.pos++
 			}
 			// while an endpoint is (scripted to be) silent, time must be allowed to pass
-			hangingNow[fmt.Sprintf("hook%d.sim:80", i)] = st == -2
+			hangingNow[fmt.Sprintf("hook%d.sim:80", i)] = st == -2 || st == -3
 			if st != 200 {
-				w.stat(fmt.Sprintf("fault.webhook_%s", map[int]string{500: "500", 503: "503", -1: "close", -2: "hang"}[st]), 1)
+				w.stat(fmt.Sprintf("fault.webhook_%s", map[int]string{500: "500", 503: "503", -1: "close", -2: "hang", -3: "stalled_body"}[st]), 1)
 				h.lastFailure = w.now()
 			}
 			return st
